@@ -19,6 +19,51 @@ def o(x) -> str:
     return "-" if x is None else str(x)
 
 
+def verdict(acl, frame) -> str:
+    """`is_permitted` on the implementation as a canonical answer.  An exception raised while the list evaluates its rules is
+    an ANSWER of the implementation on this input (the proved model has a verdict for every packet), not a harness error."""
+    try:
+        permitted, rule = acl.is_permitted(frame)
+    except Exception as e:  # noqa: BLE001
+        return f"exception:{type(e).__name__}"
+    if rule is acl.implicit_rule:
+        who = "implicit"
+    else:
+        idx = [i for i, x in enumerate(acl.acl) if x is rule]
+        who = str(idx[0]) if len(idx) == 1 else f"?{idx}"
+    return f"{1 if permitted else 0} {who}"
+
+
+WILD_SWEEP_MASKS = MASKS + ["0.0.255.0", "255.0.0.255", "0.255.255.255", "128.0.0.0", "0.0.0.1"]
+
+
+def wildcard_sweep_case(side: str = "src") -> dict:
+    """Deterministic: one rule per mask (boundary masks 0.0.0.0 and 255.255.255.255, contiguous and NON-contiguous ones) at position
+    0 on a DENY list, then packets inside and outside its range: the base itself, the base with a wild bit flipped, with a fixed
+    bit flipped, and a far address."""
+    from ipaddress import IPv4Address
+    base_ip = "192.168.1.10"
+    b = int(IPv4Address(base_ip))
+    ops = []
+    for m in WILD_SWEEP_MASKS:
+        w = int(IPv4Address(m))
+        wild = [i for i in range(32) if w >> i & 1]
+        fixed = [i for i in range(32) if not w >> i & 1]
+        addrs = [b, 0x0A000001]
+        if wild:
+            addrs += [b ^ (1 << wild[0]), b ^ (1 << wild[-1])]
+        if fixed:
+            addrs += [b ^ (1 << fixed[0]), b ^ (1 << fixed[-1])]
+        r = {"action": "PERMIT", "proto": None, "src_ip": None, "src_wc": None, "dst_ip": None, "dst_wc": None, "src_port": None, "dst_port": None}
+        r[f"{side}_ip"], r[f"{side}_wc"] = base_ip, m
+        ops.append({"op": "add", "pos": 0, "rule": r})
+        for a in addrs:
+            pkt = {"proto": "tcp", "hdr": "tcp", "src": "10.9.9.9", "dst": "10.9.9.8", "sport": 1, "dport": 2}
+            pkt[side] = str(IPv4Address(a))
+            ops.append({"op": "check", "pkt": pkt})
+    return {"surface": "api", "implicit": "DENY", "ops": ops}
+
+
 # ------------------------------------------------------------------------------------------ generation
 def gen_rule(rng: Rng) -> dict:
     def opt(xs, p_none=2):
@@ -252,13 +297,7 @@ def run_impl(case: dict) -> Tuple[List[str], int, List[Tuple[int, dict]]]:
                 else:
                     out.append("ok" if acl.remove_rule(op["pos"]) else "raised")
             else:
-                permitted, rule = acl.is_permitted(make_frame(op["pkt"]))
-                if rule is acl.implicit_rule:
-                    who = "implicit"
-                else:
-                    idx = [i for i, x in enumerate(acl.acl) if x is rule]
-                    who = str(idx[0]) if len(idx) == 1 else f"?{idx}"
-                out.append(f"{1 if permitted else 0} {who}")
+                out.append(verdict(acl, make_frame(op["pkt"])))
         except (ValueError, IndexError) as e:
             out.append("raised")
     out.append(dump_impl(acl))
